@@ -542,6 +542,8 @@ def rtext(rng, n):
 
 
 def rname(rng, n):
+    if n >= 3 and rng.random() < 0.06:
+        return [0xef, 0xbb, 0xbf] + rtext(rng, n - 3)     # starts with U+FEFF
     k = rng.randrange(6)
     return [0x80] * n if k == 0 else [0xFF] * n if k == 1 else rbytes(rng, n) if k == 2 else rtext(rng, n)
 
